@@ -12,7 +12,9 @@ V: the driver builds the concrete description (carrier families rotate; thorough
    gets and records stage and class of the first exception or "result"; spec/Trace_C18.tla compares
    with WellFormed / Stage and asserts that the judged set is exactly the enumerated set.
 """
+import os
 import signal
+import time
 import warnings
 
 import numpy as np
@@ -81,7 +83,7 @@ def make_slicer(vc, kind, variant, ctx):
         if skind == "any":
             skind = ("Width", "Number")[variant % 2]
         if skind == "Width":
-            return vc.WidthOfIntervalSlicer(0.5, value_range=(10.0, 12.0), min_n_points=20)
+            return vc.WidthOfIntervalSlicer(0.5, value_range=(10.0, None), min_n_points=20)   # no interval generated
         return vc.NumberOfIntervalsSlicer(3, value_range=(10.0, 12.0), min_n_points=20)
     if kind == "TooFew":   # 2 intervals of width 2 over (0.4, 2.8) / the default slicer on 300 rows
         return (vc.WidthOfIntervalSlicer(2.0, min_n_points=20) if variant % 2 else
@@ -195,8 +197,9 @@ def compute(vc, case, model, data):
         elif arg.endswith("Inf"):
             x[0, pos] = np.inf
         if kind == "tpdf":
-            tm = vc.TransformedModel(model, transform=lambda y: y, inverse=lambda y: y,
-                                     jacobian=lambda y: np.ones(len(y)))
+            # a transformation under which an infinite coordinate has a finite image (s = 1/(1+t^2) + 1/2)
+            tm = vc.TransformedModel(model, transform=lambda y: 0.5 + 1.0 / (1.0 + np.asarray(y) ** 2),
+                                     inverse=lambda y: y, jacobian=lambda y: np.ones(len(y)))
             return tm.pdf(x)
         return model.pdf(x) if kind == "pdf" else model.cdf(x)
     if kind in ("mpdf", "mcdf", "micdf", "ccdf", "cicdf"):
@@ -232,7 +235,7 @@ class NotRejectedInTime(BaseException):
 
 
 TIME_LIMIT = 2.0      # operations (a rejection is immediate; valid operations that take longer count as computed)
-FIT_LIMIT = 30.0
+FIT_LIMIT = 6.0
 
 
 def limited(fn, limit=None):
@@ -391,7 +394,10 @@ def run(ctx):
         if not ctx.quick and len(c["mal"]) <= 1:
             rots = list(range(7))
         for rt in rots:
+            t_case = time.time()
             r = runner.run(len(recs) + 1, c, rt)
+            if time.time() - t_case > 1.5 and os.environ.get("VERIF_C18_SLOW"):
+                ctx.log(f"slow case {time.time() - t_case:.1f}s: {case_key(c)} -> stage {r['stage']} {r['cls']}")
             r["rot"] = rt
             recs.append(r)
             rcases.append(c)
